@@ -18,6 +18,9 @@ type Value interface{}
 type StrV struct {
 	B      []*Term
 	Opaque bool
+	// NonEmpty: an opaque string known to hold at least one byte (an error message built from a format with
+	// literal text); lets `msg != ""` be decided.
+	NonEmpty bool
 }
 
 // PtrV addresses the node at Path inside Obj. Obj == nil is the nil pointer.
